@@ -20,11 +20,12 @@ CFG = {
                   "relation with well-formed UTF-8, paired surrogate escapes, depth <= MAX_NESTING_DEPTH; soundness and "
                   "completeness, full), error_linecol (full), error_offset_viable_partial (all error kinds except "
                   "UnpairedSurrogate/InvalidUnicodeEscape; for those the property is refuted on the model: "
-                  "error_offset_viable_fails = finding F5). Not proved: equivalence of the executable pushdown oracle "
-                  "(viableB/acceptB/lvp) with the relation - it is cross-checked against the proved model on every request.",
+                  "error_offset_viable_fails = finding F5), error_offset_viable_outside_f5 (every kind, outside the decidable "
+                  "syntactic F5 class), acceptB_iff / viableB_iff / lvp_longest_viable (the executable pushdown oracle decides "
+                  "Valid and Viable; lvp is the longest viable prefix), reconciliation lemmas with Spec/Utf8 and Spec/Lines.",
     "level_note": "Trusts Lean kernel + bv_decide certificate checker (UTF-8 byte-range facts only, axioms listed per theorem), "
                   "the hand-written model being the Rust code (tied by the differential harness on a near-valid stream), the "
-                  "constant extractor (MAX_NESTING_DEPTH). The offset oracle for the two surrogate error kinds is the unproved automaton Spec/JsonPda.",
+                  "constant extractor (MAX_NESTING_DEPTH). The F5 class of error_offset_viable_outside_f5 is a syntactic over-approximation (it also contains the truncated low half of a correct pair).",
     "technique": "Lean 4 proof over a function-by-function model of the validator; differential correspondence vs compiled model + independent pushdown-automaton oracle",
     "variants": [{"features": []}],
     "lean_modules": ["SuccinctlyVerif.Props.C08"],
@@ -34,10 +35,15 @@ CFG = {
                    "SuccinctlyVerif/Proof/JsonUtf8.lean", "SuccinctlyVerif/Proof/JsonString.lean",
                    "SuccinctlyVerif/Proof/JsonValue.lean", "SuccinctlyVerif/Proof/JsonComplete.lean",
                    "SuccinctlyVerif/Proof/JsonF5.lean", "SuccinctlyVerif/Proof/JsonLineCol.lean",
-                   "SuccinctlyVerif/Proof/JsonErrTok.lean", "SuccinctlyVerif/Proof/JsonErr.lean"],
+                   "SuccinctlyVerif/Proof/JsonErrTok.lean", "SuccinctlyVerif/Proof/JsonErr.lean",
+                   "SuccinctlyVerif/Proof/JsonErrSurr.lean", "SuccinctlyVerif/Proof/JsonPdaWF.lean",
+                   "SuccinctlyVerif/Proof/JsonPdaSound.lean", "SuccinctlyVerif/Proof/JsonPdaComplete.lean",
+                   "SuccinctlyVerif/Proof/JsonPdaInv.lean", "SuccinctlyVerif/Proof/JsonAlias.lean"],
     "allow_bv_decide": True,
     "required_theorems": ["SV.Props.C08.validate_ok_iff", "SV.Props.C08.error_linecol",
-                          "SV.Props.C08.error_offset_viable_fails", "SV.Props.C08.error_offset_viable_partial"],
+                          "SV.Props.C08.error_offset_viable_fails", "SV.Props.C08.error_offset_viable_partial",
+                          "SV.Props.C08.acceptB_iff", "SV.Props.C08.viableB_iff", "SV.Props.C08.lvp_longest_viable",
+                          "SV.Props.C08.error_offset_viable_outside_f5"],
     "generated": ["C08:"],
     "nontrivial": _c08_nontrivial,
     "rule": "request = one document; distinct request lines whose document has at least 2 bytes",
